@@ -242,7 +242,7 @@ let do_eval fields =
   match from_fen zt (str_of_string (List.nth fields 1)) with
   | Ok b ->
       let tw = with_to_move b (opposite b.to_move) in
-      let s = Printf.sprintf "eval %d twin %d again %d" (int_of_z (get_evaluation b)) (int_of_z (get_evaluation tw)) (int_of_z (get_evaluation b)) in
+      let s = Printf.sprintf "eval %d twin %d again %d fields %d" (int_of_z (get_evaluation b)) (int_of_z (get_evaluation tw)) (int_of_z (get_evaluation b)) (int_of_z (get_evaluation b)) in
       emit "M" s; emit "S" s
   | _ -> emit "M" "eval badfen"; emit "S" "eval badfen"
 
